@@ -155,7 +155,7 @@ Proof.
              (spawned_apply sa num bad noncoro w ecb ccb g)).
     intros n. reflexivity.
   - rewrite Hst.
-    apply (DR7_spawned rs sa _ _ (fun n => mk_req (MMap stars) 0 false els nc default_w ecb ccb n b)
+    apply (DR7_spawned rs sa _ _ (fun n => mk_req (MMap stars) 0 [] els nc default_w ecb ccb n b)
              HMa HDa (spawned_map sa stars els nc noncoro ecb ccb g)).
     intros n. reflexivity.
   - rewrite Hst. subst c.
